@@ -46,7 +46,7 @@ var idxKeyPool = []string{"app", "item0", "sub", "a", "b", "c", "loop", "x", "my
 
 var idxValPool = []string{
 	"/config/apps/verifprobe", "/config/apps/verifprobe/list/0", "/config/apps/verifprobe/sub", "/config/apps/verifprobe/n",
-	"/probe", "/probe/sub/leaf", "/probe/sub", "/stop", "/id/b", "/id/c", "/id/a", "/id/loop", "/debug/vars", "", "relative/x",
+	"/config", "/config/", "/config/apps/..", "/probe", "/probe/sub/leaf", "/probe/sub", "/stop", "/id/b", "/id/c", "/id/a", "/id/loop", "/debug/vars", "", "relative/x",
 	"/config/apps/../../stop", "/", "/id", "/nope", "/config/apps/verifprobe/", "/id/c/..", "/config//apps",
 }
 
@@ -354,7 +354,7 @@ var malformed = []string{
 	// probe pattern equal to a built-in ("/stop"), duplicate probe patterns
 	"req L 6c6f63616c686f73743a32303139:n ~ 0 ~ 2f73746f70 . 474554 6c6f63616c686f73743a32303139 2f636f6e6669672f . -:1:-:- -:1:-:- ~",
 	"req L 6c6f63616c686f73743a32303139:n ~ 0 ~ 2f70,2f70 . 474554 6c6f63616c686f73743a32303139 2f636f6e6669672f . -:1:-:- -:1:-:- ~",
-	// CONNECT with an unclean path, empty method, key id 8
+	// CONNECT with an unclean path (a valid case: the mux does not canonicalise CONNECT), empty method, key id 8
 	"req L 6c6f63616c686f73743a32303139:n ~ 0 ~ . . 434f4e4e454354 6c6f63616c686f73743a32303139 2f2f61 . -:1:-:- -:1:-:- ~",
 	"req L 6c6f63616c686f73743a32303139:n ~ 0 ~ . . 504f5354 6c6f63616c686f73743a32303139 2f73746f70 . -:1:-:- -:1:-:- ~",
 	"req L 6c6f63616c686f73743a32303139:n ~ 0 ~ . . - 6c6f63616c686f73743a32303139 2f636f6e6669672f . -:1:-:- -:1:-:- ~",
